@@ -84,7 +84,7 @@ def joinPaths (a c : Bytes) : Bytes := trimRightByte 47 a ++ [47] ++ trimLeftByt
 inductive Entry where
   | file (content : Bytes)
   | dir
-  | badlink          -- a symlink that cannot be read as a file (dangling, or to a directory)
+  | badlink          -- a dangling symlink: the directory walk lists it, reading it fails with "does not exist"
   deriving Inhabited
 
 /-- entries keyed by cleaned relative path -/
@@ -187,7 +187,7 @@ def readFile (fs : Fs) (p : Bytes) : ReadRes :=
   match fs.get p with
   | some (.file c) => .ok c
   | some .dir => .otherErr
-  | some .badlink => .otherErr
+  | some .badlink => .notExist
   | none => .notExist
 
 def osFail (line : Nat) (path : Bytes) : Fail := { line, path, msg := [], osErr := true }
